@@ -13,17 +13,26 @@ def with_replicas(h, r, reps=3):
     # every second history also runs one more replica through the executor's own goroutine pipeline (pre-execution stage,
     # execution stage), handed each block without waiting for the previous one
     pipe = r.random() < 0.5
+    mixed = False
     for o in h.ops:
         if o.startswith("world"):
             o = o + f" replicas={reps} mix=1" + (" pipe=1" if pipe else "")
         if o == "restart":
             o = "restart 0"
+        if o.startswith("block ") and " | " in o and r.random() < 0.25:
+            # a block whose transactions did not come in through this node: every signature is verified in the pre-execution
+            # stage (one goroutine per transaction); some are forged (signed by another key, bit-flipped)
+            txs = o[len("block "):].split(" | ")
+            if not any(t.startswith(("raw", "sig:", "hdr:")) for t in txs) and sum(1 for t in txs if not t.startswith("eth")) >= 2:
+                # (the harness signs Ethereum transactions itself: they stay local)
+                o = "block " + " | ".join(t if t.startswith("eth") else f"sig:{r.choice(['ok', 'ok', 'other', 'bad'])} {t}" for t in txs)
+                mixed = True
         ops.append(o)
         if o.startswith("block") and r.random() < 0.12:
             ops.append("restart 0")
     if pipe:
         ops.append("q height")        # waits for the pipelined replica and compares its last block
-    return History(ops, tags=set(h.tags) | {"replicas"} | ({"pipelined-replica"} if pipe else set()))
+    return History(ops, tags=set(h.tags) | {"replicas"} | ({"pipelined-replica"} if pipe else set()) | ({"mixed-signatures-block"} if mixed else set()))
 
 
 def gen(rng, n, tier):
